@@ -28,3 +28,21 @@ package astcomp
 //@   assert_before_call emitInstr#1: asType($instr, ir.PrepForLoop).Start == startReg && asType($instr, ir.PrepForLoop).Stop == stopReg && asType($instr, ir.PrepForLoop).Step == stepReg
 //@   assert_before_call emitInstr#2: typeis($instr, ir.AdvForLoop) && asType($instr, ir.AdvForLoop).Start == startReg && asType($instr, ir.AdvForLoop).Stop == stopReg && asType($instr, ir.AdvForLoop).Step == stepReg
 //@   assert_before_call DeclareLocal#1: spec.fromGetFreeRegister($reg)
+
+// C01 (kernel), manual §3.3.3: "In a multiple assignment, Lua first evaluates
+// all values and only then executes the assignments", so in `i, a[i] = i+1, 20`
+// the `i` in `a[i]` is read before `i` is assigned.  The table and the key of an
+// indexed target are therefore snapshotted into registers of their own
+// (handed out by GetFreeRegister), never left in the register of a variable
+// that an earlier target of the same statement may overwrite; the deferred
+// store uses exactly those two registers.
+//@ func (*assignCompiler).ProcessIndexExpVar
+//@   prop C01
+//@   arith bv
+//@   norte
+//@   nocover
+//@   requires c != nil && c.compiler != nil
+//@   modifies everything()
+//@   exits any
+//@   assert_before_call TakeRegister#1: spec.fromGetFreeRegister($reg)
+//@   assert_before_call TakeRegister#2: spec.fromGetFreeRegister($reg)
